@@ -32,6 +32,7 @@ TOL_SITE = 1e-8        # statement: "sum of occupied equivalents = defined sites
 TOL_FRAC = 1e-8        # mole fractions sum to one: same tolerance as the other balance clause
 TOL_ACT = 1e-6         # ideal component: log10 activity (= SI) vs log10 mole fraction; the statement gives no number, the SI tolerance is used
 SEED_MOLES = 1e-10    # implementation constant: amount of an element the program moves from a mineral into a solution that lacks the element (used only to name one failure mechanism)
+X_FLOOR = 1e-15        # a mole fraction below this cannot be told from 0 in a sum that must equal one in double precision
 UNDEF_SI = -99.0       # SI() reports -99.99 when the ion activity product cannot be formed
 
 
@@ -253,7 +254,7 @@ class RowJudge:
             fp = "%s site-balance master=%s definition=%s" % (kw, master, what)
             note = ""
             if tied_ratio is not None and abs((occ - expected) - tied_ratio * SEED_MOLES) <= 1e-3 * tied_ratio * SEED_MOLES:
-                fp += " excess = sites per mole x 1e-10 mol"
+                fp = "%s site-balance master=%s sites tied to a mineral: excess = sites per mole x 1e-10 mol" % (kw, master)
                 note = " ; the excess %.6g mol is sites-per-mole (%g) x 1e-10 mol" % (occ - expected, tied_ratio)
             self.bad(fp, "sum of occupied sites of %s = %.17g mol over %d species, defined %.17g mol (relative difference %.3g, tolerance %g); SYS total %.17g%s" % (
                 master, occ, nsp, expected, rel, TOL_SITE, tot, note))
@@ -309,8 +310,11 @@ class RowJudge:
                 if x <= 0.0:
                     continue
                 if si <= UNDEF_SI:
-                    self.bad(fp("component-present-without-SI", c), desc)
-                    code += "!"
+                    # an element of the component is not in the system: its activity is 0; the program keeps a floor amount
+                    # (1e-27 mol seen); a mole fraction below the resolution of "sum to one" in doubles is equal to 0
+                    if x > X_FLOOR:
+                        self.bad(fp("component-present-without-SI", c), desc)
+                        code += "!"
                     continue
                 dev = si - math.log10(x)
                 if abs(dev) > TOL_ACT:
